@@ -168,6 +168,10 @@ func (c *conn) sread() (f *Frag, err error) {
 		return nil, err
 	}
 
+	if f.Swallow {
+		return nil, codec.Continue
+	}
+
 	if f.Owner == nil {
 		return f, nil
 	}
